@@ -149,7 +149,8 @@ CLAIMED.update({
         technique="def-use dominance of the variance clamp over all exits, wiring checks of exact mode, exhaustiveness of pseudo-inverse selection (AST)",
         text="Every kriging variance returned or stored passes through max(sill - k^T K^-1 k, 0) followed only by shape-preserving operations (so it is never negative); the nugget-aware covariance is used on the "
         "right-hand side iff exact, explicit errors are refused in exact mode, the default error is the model's nugget, exactness is immutable, sill / 0 are written exactly at zero lag; pseudo-inverse type validated "
-        "and dispatched exhaustively. Interpolation exactness, the sill bound and duplicate-point behaviour as values are not decided.",
+        "and dispatched exhaustively; the assembly of the kriging system and its derived state (rules shared with C05) are checked because exactness at the data presupposes them. "
+        "Interpolation exactness, the sill bound and duplicate-point behaviour as values are not decided.",
         ref="DESIGN.md section 4 C06",
     ),
 })
